@@ -232,8 +232,8 @@ class LookupMixin:
                 nsym = st.new(ElemE(pe.prov, None, P.sym, True, ('lookup', S(P.sym), tdescr, 'tag only'), schema=pe.schema,
                                     lookup=(self.site(node, st), 'tag only', False)))
                 st.mon.setdefault('sym:tagof', {})[nsym] = tdescr
-                self.hook('lookup', st, node, fn=fi, parent=P, tag=tdescr, id=idv, result=Ref('elem', nsym), mode='tag', iddescr=iddescr)
-                self.hook('lookup', s_miss, node, fn=fi, parent=P, tag=tdescr, id=idv, result=None, mode='tag', iddescr=iddescr)
+                self.hook('lookup', st, node, fn=fi, parent=P, tag=tdescr, id=idv, result=Ref('elem', nsym), mode='tag', iddescr=iddescr, tagval=tagv)
+                self.hook('lookup', s_miss, node, fn=fi, parent=P, tag=tdescr, id=idv, result=None, mode='tag', iddescr=iddescr, tagval=tagv)
                 return [(result(nsym, st), st), (miss_val, s_miss)]
             for v, s in self.elem_find(P, tag, st, node):
                 if isinstance(v, Ref):
